@@ -173,6 +173,7 @@ impl ThreadPoolBuilder {
     pub fn start_handler<H>(self, _h: H) -> Self where H: Fn(usize) + Send + Sync + 'static { self }
     pub fn exit_handler<H>(self, _h: H) -> Self where H: Fn(usize) + Send + Sync + 'static { self }
     pub fn use_current_thread(self) -> Self { self }
+    #[deprecated] pub fn breadth_first(self) -> Self { self }
     pub fn build(self) -> Result<ThreadPool, ThreadPoolBuildError> { Ok(ThreadPool) }
     pub fn build_global(self) -> Result<(), ThreadPoolBuildError> {
         if GLOBAL_INIT.swap(true, std::sync::atomic::Ordering::SeqCst) { Err(ThreadPoolBuildError) } else { Ok(()) }
